@@ -1519,11 +1519,7 @@ class ContactHandler(Messenger, dbus.service.Object):
                 self._tx_tmp.total_length
             )
 
-        if self._tx_length == self._tx_tmp.total_length:
-            # Nothing more to send, just waiting on ACK
-            return False
-
-        # send next segment
+        # send next segment (a zero-length bundle is one empty START+END segment)
         flg = 0
         ext_items = []
         if 'private_extensions' in self._config.enable_test:
